@@ -135,16 +135,41 @@ def reparse_create(b: bytes, fmt: str, hierarchy: bool, d: str):
 def work(args):
     seed, index, kind = args
     drv = common.worker_driver()
+    import random
     try:
-        desc, files, feats = suitcases.make_case(seed, index, ambiguous=(kind == "ambiguous"))
+        if kind == "sized":
+            from .c02 import sized_case, SIZED
+            desc, files, feats = sized_case(*SIZED[index % len(SIZED)]), {}, []
+            suitcases.LAST_CHILDREN[:] = []
+        else:
+            desc, files, feats = suitcases.make_case(seed, index, ambiguous=(kind == "ambiguous"), depth=(1 if kind == "signed" else 2))
     except suitcases.ChildFailed:
         return None
-    import random
     desc = suitcases.perturb_text(desc, random.Random(f"{seed}:{index}:text"))
     created = suitcases.run_impl_create(desc, files)
     if "ok" not in created:
         return {"skip": created["err"]}
     b = bytes.fromhex(created["ok"])
+    if kind == "signed":
+        # signatures as the real sign command writes them (its own encoding of the protected header), one to three of them, small and
+        # large key identifiers: the parse -> create round trip must keep the authentication wrapper byte for byte
+        import tempfile
+        from .. import signing
+        from .c04 import strip_blocks
+        rs = random.Random(f"{seed}:{index}:sign")
+        c0 = suitcases.run_impl_create(strip_blocks(desc), files)
+        if "ok" not in c0:
+            return None
+        b = bytes.fromhex(c0["ok"])
+        with tempfile.TemporaryDirectory(prefix="verif_c03s_") as sd:
+            for _ in range(rs.choice([1, 1, 2, 3])):
+                alg = rs.choice(["eddsa", "es-256"])
+                r, _recs = signing.run_sign("single-level", b, sd, key_name="key_" + signing.MATCHING_KEY[alg], alg=alg, action="append" if False else "error",
+                                            key_id=rs.choice([0, 7, 23, 24, 255, 256, 300, 65535, 65536, 0x40022100, 0x7FFFFFE0, 0xFFFFFFFF]))
+                if "ok" not in r:
+                    break
+                b = r["ok"]
+                break
     amb = ambiguous_positions(desc) + [p for ch in suitcases.LAST_CHILDREN for p in ambiguous_positions(ch)]
     res = {"amb": len(amb) > 0, "kind": kind, "hash": hashlib.sha1(b).hexdigest(), "problems": [], "mismatch": None, "len": len(b)}
     # parse: implementation vs model
@@ -200,6 +225,7 @@ def run(tier: str, seed: int) -> int:
         return finish(res, st, RULE, NOTE)
     n = 700 if tier == "quick" else 15000
     jobs = [(seed, i, "plain") for i in range(n)] + [(seed, 8 * 10 ** 6 + i, "ambiguous") for i in range(n // 3)]
+    jobs += [(seed, i, "sized") for i in range(8)] + [(seed, 11 * 10 ** 6 + i, "signed") for i in range(40 if tier == "quick" else 600)]
     known = {e["id"] for e in Findings().known(PROP)}
     outs = common.pmap(work, jobs, chunk=8)
     for job, o in zip(jobs, outs):
